@@ -439,6 +439,61 @@ def check_property(pid, tier, seed):
     return exit_code
 
 
+GATE_DEFAULT = "advisory"  # TODO(lead): "strict" once the engine worker has finished
+
+
+def engine_gate(force=False):
+    """Self-test gate of the verification engine itself: before any property is checked, the engine (pyvc/*.py, incl.
+    frames and orderfree) must pass its own regression suites -- small programs with TRUE clauses that must be
+    discharged, FALSE twins that must not, CPython differential runs and the recorded wrong-`unsat` solver files.
+    The result is cached per content hash of the engine + suites (out/.selftest-<hash>.ok), so it runs once per
+    engine version. A failing gate is a checker error (exit 3): nothing such an engine 'proves' is believed."""
+    import fcntl
+    import hashlib
+    import subprocess
+
+    h = hashlib.sha256()
+    for d in ("pyvc", "selftest", os.path.join("selftest", "frames_cases")):
+        dd = os.path.join(ROOT, d)
+        if not os.path.isdir(dd):
+            continue
+        for dp, _dn, fns in sorted(os.walk(dd)):
+            if "__pycache__" in dp:
+                continue
+            for fn in sorted(fns):
+                if fn.endswith((".py", ".smt2", ".txt")):
+                    with open(os.path.join(dp, fn), "rb") as f:
+                        h.update(fn.encode() + b"\0" + f.read())
+    out_root = os.path.join(ROOT, "out")
+    os.makedirs(out_root, exist_ok=True)
+    marker = os.path.join(out_root, f".selftest-{h.hexdigest()[:16]}.ok")
+    if os.path.exists(marker) and not force:
+        return 0
+    if os.environ.get("VERIF_SKIP_SELFTEST") == "1" and not force:
+        return 0
+    with open(os.path.join(out_root, ".selftest.lock"), "w") as lk:
+        fcntl.flock(lk, fcntl.LOCK_EX)
+        if os.path.exists(marker) and not force:
+            return 0
+        suites = [m for m in ("selftest.run", "selftest.orderfree_run", "selftest.frames_run")
+                  if os.path.exists(os.path.join(ROOT, *m.split(".")) + ".py")]
+        env = dict(os.environ, PYTHONHASHSEED="0", VERIF_OUT=os.path.join(out_root, "selftest"))
+        for m in suites:
+            t0 = time.time()
+            r = subprocess.run([sys.executable, "-W", "ignore", "-m", m], cwd=ROOT, env=env, capture_output=True, text=True, timeout=1200)
+            tail = (r.stdout or "").strip().splitlines()[-1:] or [""]
+            print(f"ENGINE-SELFTEST {m}: exit={r.returncode} {round(time.time() - t0, 1)}s {tail[0][:160]}")
+            if r.returncode != 0:
+                bad = [l for l in (r.stdout or "").splitlines() if l.startswith(("FAIL", "UNEXPECTED", "UNSOUND"))][:10]
+                for l in bad:
+                    print("  " + l[:200])
+                print(f"CHECKER-ERROR engine self-test {m} failed: the verification engine does not pass its own regression suite")
+                return 3
+        with open(marker, "w") as f:
+            f.write(time.strftime("%Y-%m-%dT%H:%M:%S") + " " + " ".join(suites) + "\n")
+    return 0
+
+
 def main():
     ap = argparse.ArgumentParser()
     ap.add_argument("what")
@@ -460,6 +515,13 @@ def main():
     _wd.start()
     if a.what == "replay":
         sys.exit(replay(a.arg))
+    if a.what == "selftest":
+        sys.exit(engine_gate(force=True))
+    # While the engine is under development the gate is advisory (VERIF_GATE=advisory); the registered checks run strict.
+    if os.environ.get("VERIF_GATE", GATE_DEFAULT) != "off":
+        g = engine_gate()
+        if g != 0 and os.environ.get("VERIF_GATE", GATE_DEFAULT) == "strict":
+            sys.exit(g)
     try:
         code = check_property(a.what, a.tier, seed)
     except Exception:
